@@ -33,6 +33,42 @@ class Timeout(Exception):
     pass
 
 
+class AesCounter:
+    """ghost counter `aes_calls`: number of AES encrypt/decrypt operations performed by the code under test"""
+    calls = 0
+    installed = False
+
+    @classmethod
+    def install(cls):
+        if cls.installed:
+            return
+        try:
+            from Crypto.Cipher import AES
+        except ImportError:
+            return
+        real_new = AES.new
+
+        class Wrapped:
+            def __init__(self, inner):
+                self._inner = inner
+
+            def encrypt(self, *a, **k):
+                AesCounter.calls += 1
+                return self._inner.encrypt(*a, **k)
+
+            def decrypt(self, *a, **k):
+                AesCounter.calls += 1
+                return self._inner.decrypt(*a, **k)
+
+            def __getattr__(self, n):
+                return getattr(self._inner, n)
+
+        def new(*a, **k):
+            return Wrapped(real_new(*a, **k))
+        AES.new = new
+        cls.installed = True
+
+
 def _alarm(signum, frame):
     raise Timeout()
 
@@ -45,7 +81,8 @@ def load_specs():
         if fn.endswith(".py"):
             path = os.path.join(d, fn)
             exec(compile(open(path).read(), path, "exec"), env)
-    for k in ("forall", "exists", "implies", "iff", "ite", "bxor", "sub", "file_content", "file_pos", "fits_bytes"):
+    for k in ("forall", "exists", "implies", "iff", "ite", "bxor", "sub", "file_content", "file_pos", "fits_bytes", "aes_enc", "aes_dec",
+              "hmac_sha256", "sha256"):
         env[k] = getattr(rt, k)
     return env
 
@@ -150,7 +187,9 @@ class ConcreteContract:
         self.requires = [compile_expr(r) for r in contract.requires]
         self.ensures_src = [ast.unparse(e) for e in contract.ensures]
         self.ensures = [compile_expr(rw.visit(copy.deepcopy(e))) for e in contract.ensures]
-        self.raises = [(exc, compile_expr(w) if w is not None else None) for exc, w in contract.raises]
+        self.raises = [(exc, compile_expr(w) if w is not None else None,
+                        compile_expr(rw.visit(copy.deepcopy(en))) if en is not None else None)
+                       for exc, w, en in contract.raises]
         self.entry_lets = []
         for g in contract.ghosts:
             if g.where == "entry":
@@ -197,21 +236,27 @@ class ConcreteContract:
                 return k, "false"
         return None, None
 
-    def check_raise(self, args, pre, exc):
+    def check_raise(self, args, pre, exc, extra=None):
         e = self.env(args)
         e.update(pre)
+        if extra:
+            e.update(extra)
         names = [c.__name__ for c in type(exc).__mro__]
         matched = False
-        for excname, when in self.raises:
+        for excname, when, ens in self.raises:
             if excname.split(".")[-1] in names:
                 matched = True
-                if when is None or eval(when, e):
+                if (when is None or eval(when, e)) and (ens is None or eval(ens, e)):
                     return True, None
         return False, ("raised but its `when` condition is false" if matched else "exception type not allowed by the contract")
 
 
 def build_args(contract, inputs, tmpfiles):
     return {name: from_json(inputs[name], tmpfiles) for name, _ in contract.params if name in inputs}
+
+
+def build_logicals(contract, inputs):
+    return {name: from_json(inputs[name]) for name in contract.logicals if name in inputs}
 
 
 def run_case(fn, cc, inputs, consts, timeout_s=5, is_generator=False, mode="func"):
@@ -221,13 +266,19 @@ def run_case(fn, cc, inputs, consts, timeout_s=5, is_generator=False, mode="func
     saved_consts = {}
     try:
         args = build_args(cc.c, inputs, tmpfiles)
+        logicals = build_logicals(cc.c, inputs)
         for cname, cval in (consts or {}).items():
             modn, attr = cname.rsplit(".", 1)
             m = importlib.import_module(modn)
             saved_consts[cname] = getattr(m, attr)
             setattr(m, attr, cval)
+        AesCounter.install()
+        AesCounter.calls = 0
+        logicals["aes_calls"] = 0
         try:
-            pre = cc.pre_state(args)
+            pre = cc.pre_state(dict(args, **logicals))
+            if pre is not None:
+                pre.update(logicals)
         except Exception as ex:
             return {"outcome": "pre-false", "detail": f"precondition not evaluable: {ex!r}"}
         if pre is None:
@@ -256,11 +307,12 @@ def run_case(fn, cc, inputs, consts, timeout_s=5, is_generator=False, mode="func
                     "detail": f"did not return within {timeout_s}s", "inputs": inputs, "consts": consts}
         except BaseException as ex:  # noqa: BLE001
             signal.alarm(0)
-            ok, why = cc.check_raise(args, pre, ex)
+            ok, why = cc.check_raise(args, pre, ex, {"aes_calls": AesCounter.calls})
             if ok:
                 return {"outcome": "ok", "raised": type(ex).__name__}
             return {"outcome": "violation", "kind": "exception", "exception": repr(ex)[:300], "detail": why,
                     "inputs": inputs, "consts": consts}
+        extra["aes_calls"] = AesCounter.calls
         k, why = cc.check_post(args, pre, r, extra)
         if k is None:
             return {"outcome": "ok"}
@@ -330,6 +382,16 @@ def domains_of(contract, specenv=None):
 def search(fn, cc, contract, budget, seed, timeout_s, mode):
     doms, consts = domains_of(contract, cc.specenv)
     names = [n for n, _ in contract.params]
+    if "cases" in doms:
+        tried = pre_false = 0
+        for inputs in doms["cases"]:
+            r = run_case(fn, cc, inputs, {}, timeout_s, mode=mode)
+            tried += 1
+            pre_false += r["outcome"] == "pre-false"
+            if r["outcome"] == "violation":
+                r.update(tried=tried, space=len(doms["cases"]))
+                return r
+        return {"outcome": "ok", "tried": tried, "pre_false": pre_false, "space": len(doms["cases"]), "exhaustive": True}
     if any(n not in doms for n in names):
         return {"outcome": "no-domain", "missing": [n for n in names if n not in doms]}
     cnames = sorted(consts)
